@@ -295,5 +295,7 @@ NilInv == \A k \in Keys : readM[k] # 0 /\ ep[readM[k]] = NilP /\ mu = 0 => dirty
 LiveInv == \A k \in Keys : readM[k] # 0 /\ ep[readM[k]] > 0 /\ mu = 0 /\ ~dirtyNil => dirty[k] = readM[k]
 AmendedInv == mu = 0 => (amended <=> \E k \in Keys : dirty[k] # 0 /\ readM[k] = 0) \/ (amended /\ ~dirtyNil)
 LockInv == mu = 0 => \A t \in AllT : pc[t] \notin {"ML","DL1","DL2","DL3","RS","UX","ST7"}
+\* spec growth: Range never holds mu while it calls back (so a callback may call back into the map without deadlock)
+RangeCallbackUnlocked == \A t \in AllT : (pc[t] = "LD5" /\ cur[t].op = "Range") => mu # t
 Done == \A t \in AllT : pc[t] = "idle"
 ====
